@@ -115,6 +115,8 @@ def run(rec, cfg):
         MR.HINTS[:] = hints
         if rng.random() < 0.5:
             inplace_equation_chain(rec, root, rules, rng, text, hints)
+        if rng.random() < 0.6:
+            D.apply_from_subtree_listing(rec, root, [(l, r) for l, r in rules if l in ("BM", "CA", "DF", "VM", "CS")], rng)
         frontier = [root]
         for depth in range(3):
             nxt = []
